@@ -236,10 +236,13 @@ def toy(rng_script=None):
     import dpapi_ng._gkdi as g
     log = Log()
     ns = make_toy(log, rng_script)
-    saved = {(m, k): getattr(m, k) for m, k in ((c, "KBKDFHMAC"), (c, "ConcatKDFHash"), (c, "AESGCM"), (c, "keywrap"), (c, "os"), (g, "ec"), (g, "os"))}
+    wanted = ((c, "KBKDFHMAC"), (c, "ConcatKDFHash"), (c, "AESGCM"), (c, "keywrap"), (c, "os"), (g, "ec"), (g, "os"))
+    # a module that no longer imports one of these names does not use it: substitute only what is there (the draw-count and
+    # primitive-call oracles then see whatever it uses instead as a missing / unexpected call)
+    saved = {(m, k): getattr(m, k) for m, k in wanted if hasattr(m, k)}
     try:
-        c.KBKDFHMAC, c.ConcatKDFHash, c.AESGCM, c.keywrap, c.os = ns["KBKDFHMAC"], ns["ConcatKDFHash"], ns["AESGCM"], ns["keywrap"], ns["os"]
-        g.ec, g.os = ns["ec"], ns["os"]
+        for (m, k) in saved:
+            setattr(m, k, ns[k])
         yield log
     finally:
         for (m, k), v in saved.items():
@@ -252,7 +255,7 @@ def recording(rng_script=None):
     import dpapi_ng._crypto as c
     import dpapi_ng._gkdi as g
     log = Log()
-    real_kb, real_ck, real_gcm, real_kw, real_os_c, real_os_g = c.KBKDFHMAC, c.ConcatKDFHash, c.AESGCM, c.keywrap, c.os, g.os
+    real_kb, real_ck, real_gcm, real_kw, real_os_c, real_os_g = c.KBKDFHMAC, c.ConcatKDFHash, c.AESGCM, c.keywrap, getattr(c, "os", None), getattr(g, "os", None)
 
     class KB:
         def __init__(self, **kw):
@@ -311,7 +314,15 @@ def recording(rng_script=None):
             return real_kw.aes_key_unwrap(kek, w)
 
     try:
-        c.KBKDFHMAC, c.AESGCM, c.keywrap, c.os, g.os = KB, GCM, KW, _os, _os
+        c.KBKDFHMAC, c.AESGCM, c.keywrap = KB, GCM, KW
+        if real_os_c is not None:
+            c.os = _os
+        if real_os_g is not None:
+            g.os = _os
         yield log
     finally:
-        c.KBKDFHMAC, c.ConcatKDFHash, c.AESGCM, c.keywrap, c.os, g.os = real_kb, real_ck, real_gcm, real_kw, real_os_c, real_os_g
+        c.KBKDFHMAC, c.ConcatKDFHash, c.AESGCM, c.keywrap = real_kb, real_ck, real_gcm, real_kw
+        if real_os_c is not None:
+            c.os = real_os_c
+        if real_os_g is not None:
+            g.os = real_os_g
